@@ -185,6 +185,11 @@ let run_op (op : string) (args : string list) : string =
     let s = schema_of_sexp (parse_sexp sch) in
     let v = nvalue_of_sexp (parse_sexp nv) in
     (if in_scope s then "1" else "0") ^ (if unamb v then "1" else "0") ^ (if small_seqs v then "1" else "0")
+  | "styschema", [ t ] ->
+    let t = sty_of_sexp (parse_sexp t) in
+    (if sty_ok t then "ok " else "outside ") ^ (match schema_of t with Some s -> string_of_schema s | None -> "none")
+  | "styemit", [ t; nv ] ->
+    if emit_ok (nat_of_int 64) (sty_of_sexp (parse_sexp t)) (nvalue_of_sexp (parse_sexp nv)) then "1" else "0"
   | "reencscope", [ sch; js ] ->
     let s = schema_of_sexp (parse_sexp sch) in
     let j = json_of_sexp (parse_sexp js) in
